@@ -23,6 +23,10 @@ SPEC = Spec(
         Harness(name="provlog", module="otelcol", pkg="otelcol",
                 files={"zz_verif_c20_runloop_test.go": "c20/runloop_test.go", "zz_verif_c20_providerlog_test.go": "c20/providerlog_test.go"},
                 test="TestVerifC20ProviderLogs", driver="drv_c20", n={"quick": 8, "thorough": 60}, timeout_s=1500),
+        # provider goroutines notify the REAL resolver in bursts (change / error) during start-up, reloads, Running (monitored only)
+        Harness(name="watchburst", module="otelcol", pkg="otelcol",
+                files={"zz_verif_c20_runloop_test.go": "c20/runloop_test.go", "zz_verif_c20_watchburst_test.go": "c20/watchburst_test.go"},
+                test="TestVerifC20WatchBursts", driver="drv_c20", n={"quick": 150, "thorough": 2000}, timeout_s=1500),
         # native scheduling, no gates: monitored only (M)
         Harness(name="race", module="otelcol", pkg="otelcol",
                 files={"zz_verif_c20_runloop_test.go": "c20/runloop_test.go"},
